@@ -3,6 +3,7 @@
 #[macro_use]
 pub mod simkit;
 pub mod checks;
+pub mod simnet;
 pub mod simstore;
 
 use simkit::driver::{self, CheckOptions};
